@@ -272,9 +272,12 @@ func (t Percentage) serializeTo(writer io.StringWriter) {
 func (t Dimension) serializeTo(writer io.StringWriter) {
 	writer.WriteString(t.Value)
 	// Disambiguate with scientific notation
-	if t.Unit == "e" || t.Unit == "E" || strings.HasPrefix(t.Unit, "e-") || strings.HasPrefix(t.Unit, "E-") {
-		writer.WriteString("\\65 ")
-		writer.WriteString(serializeName(t.Unit[1:]))
+	// (an exponent is `e` or `E`, an optional sign and digits)
+	if u := t.Unit; len(u) != 0 && (u[0] == 'e' || u[0] == 'E') &&
+		(len(u) == 1 || u[1] == '-' || ('0' <= u[1] && u[1] <= '9')) {
+		// keep the case of the letter: \65 is `e`, \45 is `E`
+		writer.WriteString(fmt.Sprintf("\\%X ", u[0]))
+		writer.WriteString(serializeName(u[1:]))
 	} else {
 		writer.WriteString(serializeIdentifier(t.Unit))
 	}
